@@ -34,8 +34,10 @@ ASSUMPTIONS = [
     "non-ASCII digits / spaces in the string form and exponents beyond binary64 range are not generated",
 ]
 
-TAGS = ["#", "#", "#", "BRAM", "DSP", "reg1", "_x", "a_9", "Z"]
-BAD_TAGS = ["_", "9a", "a-b", "", "a b", "##", "reg.1"]
+TAGS = ["#", "#", "#", "#", "BRAM", "DSP", "reg1", "_x", "a_9", "Z", "BRAM", "DSP",
+        # prefixes of each other, YAML-special words, words float() knows, the ground tag doubled
+        "reg", "reg1_0", "null", "true", "yes", "on", "n", "inf", "nan", "x", "e5", "__", "_1", "True"]
+BAD_TAGS = ["_", "9a", "a-b", "", "a b", "##", "reg.1", "BRAM ", " BRAM", "#x", "_#", "1e5", "a:b", "x,y"]
 
 
 # --------------------------------------------------------------------------
@@ -92,6 +94,12 @@ def place_regions(rng, nx, ny, k, pattern):
             put(i, j, min(nx, i + rng.randrange(1, 3)), ny)
         else:
             put(i, 0, min(nx, i + rng.randrange(1, 3)), j)
+    if pattern == "many":
+        cells = [(i, j) for i in range(nx) for j in range(ny)]
+        rng.shuffle(cells)
+        for (i, j) in cells[:k]:
+            put(i, j, i + 1, j + 1)
+        return out
     tries = 0
     while len(out) < k and tries < 40:
         tries += 1
@@ -169,6 +177,9 @@ def gen_case(rng, stream=None):
     nx, ny = rng.choice([1, 2, 3, 3, 4, 4, 5, 5, 6]), rng.choice([1, 2, 3, 3, 4, 4, 5, 5, 6])
     pattern = rng.choices(["random", "ring", "tjunction", "full"], [12, 5, 4, 1])[0]
     k = rng.randrange(0, 9)
+    if stream in ("exact", "decimal") and rng.random() < 0.025:
+        nx, ny, pattern = 7, 7, "many"                      # many one-cell regions: 9, 10, 15, 16, 17, 32, 33
+        k = rng.choice([9, 10, 15, 16, 17, 32, 33])
     if stream == "decimal":
         q = rng.choice([F(1, 10), F(1, 10), F(1, 100)])
         maxv = rng.choice([60, 600, 6000, 1000000 if q == F(1, 10) else 10000000])
@@ -213,6 +224,9 @@ def gen_case(rng, stream=None):
                 b1[s1] = line + sg * F(1, 512)
                 b2[s2] = line + sg * F(1, 1024)
                 case["stats"] = case["stats"] + ["centre-line"]
+    if rng.random() < 0.5:
+        rng.shuffle(regions)                                 # the order in which regions are listed is arbitrary
+        rng.shuffle(fixed)
     tree_regions = [[(b[0] + b[2]) / 2, (b[1] + b[3]) / 2, b[2] - b[0], b[3] - b[1], b[4]] for b in regions]
     case["fixed"] = [[(b[0] + b[2]) / 2, (b[1] + b[3]) / 2, b[2] - b[0], b[3] - b[1]] for b in fixed]
     tree = {"width": W, "height": H}
@@ -228,8 +242,15 @@ def gen_case(rng, stream=None):
         case["hard"] = [[(b[0] + b[2]) / 2, (b[1] + b[3]) / 2, b[2] - b[0], b[3] - b[1], rng.choice(["hard", "soft"])]]
     if stream == "malformed":
         inject_defect(rng, case, tree, xs, ys)
+    if rng.random() < 0.2:
+        keys = list(tree)
+        rng.shuffle(keys)                                    # regions before width, height first, ...
+        tree = {k: tree[k] for k in keys}
     case["tree"] = tree
     choose_form(rng, case, tree)
+    # history: the same netlist object / the same description used before, in the same process
+    if rng.random() < 0.2:
+        case["warm"] = rng.choice(["twice", "twice", "no-netlist-first", "bare-first"])
     return case
 
 
@@ -347,7 +368,9 @@ def spell_number(rng, x, where):
         k = rng.randrange(1, len(ip))
         body = body[:k] + "_" + body[k:]                       # 1_0 : '_' between two digits
     if where == "string" and rng.random() < 0.06:
-        body = "0" + body if body[0] != "." else body          # 010
+        body = "0" * rng.choice([1, 1, 9, 17]) + body if body[0] != "." else body          # 010, 000000000010
+    if "." in body and rng.random() < 0.05:
+        body += "0" * rng.choice([1, 12, 16, 20, 40])          # 12.50000000000000000000 (more than 17 digits)
     if kind == "exp":
         body += rng.choice("eE") + (rng.choice(["", "+"]) if e >= 0 else "-") + str(abs(e))
     if rng.random() < 0.15:
@@ -399,6 +422,8 @@ def render_text(case):
         lines = []
         if rng.random() < 0.2:
             lines.append("# die description")
+        if rng.random() < 0.03:
+            lines.append("# " + "-" * rng.choice([4094, 4096, 5000]))      # the text is longer than 4096 characters
         if rng.random() < 0.15:
             lines.append("---")
         for k, v in tree.items():
@@ -590,7 +615,7 @@ def run_impl(case):
         return run_sd(case)
     cwd = os.getcwd()
     tmp = None
-    handle = None
+    handles = []
     try:
         if case.get("eps") is not None:
             Rectangle.set_epsilon(float(case["eps"]))
@@ -602,28 +627,41 @@ def run_impl(case):
             # strings that are neither '<W>x<H>' nor YAML text are opened as files: run in an empty directory
             tmp = tempfile.mkdtemp(prefix="verif-c01-")
             os.chdir(tmp)
-        if form == "string":
-            stream = txt
-            if case.get("shadowfile"):
-                with open(stream, "w") as f:
-                    f.write(case["shadowfile"])
-        elif form == "text":
-            stream = txt
-        elif form == "file":
-            stream = case["fname"]
-            if case.get("textdefect") != "missing-file":
-                with open(stream, "w") as f:
-                    f.write(txt)
-        elif form == "stream":
-            if case["handle"] == "file":
-                with open("stream.yaml", "w") as f:
-                    f.write(txt)
-                handle = open("stream.yaml")
-                stream = handle
-            else:
-                stream = io.StringIO(txt)
-        else:
-            stream = tree
+        def make_stream():
+            if form == "string":
+                if case.get("shadowfile"):
+                    with open(txt, "w") as f:
+                        f.write(case["shadowfile"])
+                return txt
+            if form == "text":
+                return txt
+            if form == "file":
+                if case.get("textdefect") != "missing-file":
+                    with open(case["fname"], "w") as f:
+                        f.write(txt)
+                return case["fname"]
+            if form == "stream":
+                if case["handle"] == "file":
+                    with open("stream.yaml", "w") as f:
+                        f.write(txt)
+                    handles.append(open("stream.yaml"))
+                    return handles[-1]
+                return io.StringIO(txt)
+            return py_tree(case["tree"])
+
+        # history: earlier constructions in the same process (same netlist object, same description); what the
+        # judged construction reports must not depend on them
+        warm = case.get("warm")
+        try:
+            if warm == "twice":
+                Die(make_stream(), netlist) if netlist is not None else Die(make_stream())
+            elif warm == "no-netlist-first":
+                Die(make_stream())
+            elif warm == "bare-first" and isinstance(tree.get("width"), (int, float)) and isinstance(tree.get("height"), (int, float)):
+                Die({"width": tree["width"], "height": tree["height"]}, netlist)
+        except Exception:
+            pass
+        stream = make_stream()
         obs = {}
         w, h = tree.get("width"), tree.get("height")
         try:
@@ -657,8 +695,8 @@ def run_impl(case):
         obs["tin"] = max(w, h) * 10e-12 if ok else 0.0
         return obs
     finally:
-        if handle is not None:
-            handle.close()
+        for hd in handles:
+            hd.close()
         os.chdir(cwd)
         if tmp is not None:
             import shutil
@@ -937,7 +975,7 @@ def run_oracle_only(ctx, out):
 
 
 def run(ctx, out, replay=None):
-    n = 5000 if ctx.quick() else 30000
+    n = 4000 if ctx.quick() else 30000
     out.rule = ("dies with 0-8 lattice-aligned regions (blockages, identifiers, fixed rectangles through a generated netlist) "
                 "on a coarse nx x ny lattice (1..6 each, narrow columns for near-misses; patterns random / pinwheel ring with "
                 "enclosed hole / T-junction / fully covered); streams exact (dyadic), exact-eps (explicit epsilon 2^-10, sides "
